@@ -31,8 +31,8 @@ mutual
     | .atom a => by simp [Val.pyEq, Val.eq_self]
     | .tup xs => by simp [Val.pyEq, Val.pyEqList_refl xs]
     | .dict ks vs => by simp [Val.pyEq, Val.eq_self]
-    | .app f p k v => by simp [Val.pyEq, Val.eq_self]
-    | .imp f c n p k v => by simp [Val.pyEq, Val.eq_self]
+    | .app f p k v => by simp [Val.pyEq, Val.pyEqList_refl p, Val.pyEqList_refl v]
+    | .imp f c n p k v => by simp [Val.pyEq, Val.pyEqList_refl p, Val.pyEqList_refl v]
   theorem Val.pyEqList_refl : ∀ vs : List Val, Val.pyEqList vs vs = true
     | [] => rfl
     | v :: vs => by simp [Val.pyEqList, Val.pyEq_refl v, Val.pyEqList_refl vs]
